@@ -104,7 +104,7 @@ def _exec_text(text: str, sv: str, tm: str) -> Dict[str, Any]:
 
     ns: Dict[str, Any] = {"__name__": "generated_schema"}
     try:
-        exec(compile(text, "generated_schema.py", "exec"), ns)
+        exec(compile(text, "generated_schema.py", "exec", dont_inherit=True), ns)  # do not inherit this file's `from __future__ import annotations`
     except BaseException as e:  # noqa: BLE001
         return {"status": "raises", "exc": type(e).__name__, "msg": str(e)[:300]}
     val = ns.get(sv, None) if sv in ns else None
@@ -961,6 +961,68 @@ def corpus_replay(ctx: Ctx, st: Optional[LeanStatus], res: Result) -> None:
           [r for r, it in zip(results, items) if not it.get("finding") and not it.get("expect_unprintable_source")], Result())
 
 
+def shrink(ctx: Ctx, fail: Failure, max_attempts: int = 60) -> Failure:
+    """structural shrinking: drop top-level definitions / use the default names while the failure keeps its signature"""
+    import time
+
+    inp = fail.input
+    if not isinstance(inp, dict) or "sdl" not in inp:
+        return fail
+    t0 = time.time()
+    best = dict(inp)
+    best_fail = fail
+    attempts = 0
+
+    def still_fails(cand: Dict[str, Any]) -> Optional[Failure]:
+        status, r = engine.forked(run_case, cand, timeout=120)
+        if status != "ok" or "observer_error" in r or "source_unavailable" in r:
+            return None
+        hits = [f for f in oracle(cand, r) if f.signature == fail.signature and f.trigger == fail.trigger]
+        return hits[0] if hits else None
+
+    for key, simple in (("tm", "type_map"), ("sv", "schema"), ("source", "sdl"), ("via", "direct")):
+        if best.get(key) != simple and attempts < max_attempts:
+            cand = dict(best, **{key: simple})
+            attempts += 1
+            hit = still_fails(cand)
+            if hit:
+                best, best_fail = cand, hit
+    progress = True
+    while progress and attempts < max_attempts and time.time() - t0 < 90:
+        progress = False
+        blocks = best["sdl"].rstrip("\n").split("\n\n")
+        for i in range(len(blocks)):
+            if attempts >= max_attempts:
+                break
+            sdl = "\n\n".join(blocks[:i] + blocks[i + 1:]) + "\n"
+            if not sdl.strip() or valid_sdl(sdl) is not None:
+                continue
+            attempts += 1
+            cand = dict(best, sdl=sdl)
+            hit = still_fails(cand)
+            if hit:
+                best, best_fail, progress = cand, hit, True
+                break
+    best_fail.input = best
+    return best_fail
+
+
+def shrink_unknown(ctx: Ctx, res: Result) -> None:
+    known = {(f.get("trigger"), s) for f in common.load_findings(ctx.prop) if f.get("status") == "open"
+             for s in (f["signature"] if isinstance(f["signature"], list) else [f["signature"]])}
+    seen: set = set()
+    out: List[Failure] = []
+    for f in res.failures:
+        if (f.trigger, f.signature) in known and f.trigger is not None:
+            out.append(f)
+            continue
+        if f.key() in seen:
+            continue  # conclude reports one replay per (trigger, signature)
+        seen.add(f.key())
+        out.append(shrink(ctx, f))
+    res.failures = out
+
+
 def run(ctx: Ctx, st: Optional[LeanStatus]) -> Result:
     res = Result()
     res.rule = ("seeded type-directed schemas (harness/c16_gen.py; graphql-core validate_schema filters) x source kind (SDL via "
@@ -978,6 +1040,7 @@ def run(ctx: Ctx, st: Optional[LeanStatus]) -> Result:
     dispatch_check(ctx, st, res)
     identifier_check(ctx, res)
     repr_law_check(ctx, res)
+    shrink_unknown(ctx, res)
     res.oracle_only += [
         "that the emitted text is valid, importable Python after autoflake/isort/black (exec of the real file)",
         "graphql-core's type collection reproducing the source type_map order (compared on the real objects)",
@@ -1014,6 +1077,7 @@ def search(ctx: Ctx) -> Result:
     dispatch_check(ctx, None, res)
     identifier_check(ctx, res)
     res.mismatches = []  # the search reports property failures only
+    shrink_unknown(ctx, res)
     return res
 
 
